@@ -3,6 +3,7 @@ package writer
 import (
 	"errors"
 	"fmt"
+	"github.com/protobom/protobom/pkg/verifhook"
 	"io"
 	"os"
 	"sync"
@@ -52,6 +53,7 @@ func New(opts ...WriterOption) *Writer {
 		Storage: fstore.NewFileSystem(),
 		Options: newDefaultOptions(),
 	}
+	verifhook.Point("writer.New:before-options")
 
 	for _, opt := range opts {
 		opt(w)
